@@ -9,6 +9,9 @@
 (*   a failure is reported in every paradigm (error return or error item), *)
 (*   never a panic or a hang                                               *)
 (*                                                                         *)
+(* A hang or a panic in ANY paradigm is rejected, so in particular one     *)
+(* that occurs in only some of them (the harness puts a watchdog around    *)
+(* every single call and records kind = "hang").                           *)
 (* Nothing about native forms, derivations, chunkings or copies appears    *)
 (* here: nodes are "append my marker", handlers "append ( / )", so Ref is  *)
 (* a plain composition.  Values are strings or maps key -> string; a       *)
@@ -40,6 +43,8 @@ Ref(cfg) ==
             [] cfg.shape = "nested" -> Str(v \o Cat([i \in 1..Len(N) |-> M(i)]))
             [] cfg.shape = "fan2" -> IF cfg.dup THEN FAILED ELSE {<<N[1].n, v \o M(1)>>, <<N[2].n, v \o M(2)>>}
             [] cfg.shape = "fan3" -> IF cfg.dup THEN FAILED ELSE {<<N[2].n, v \o M(1) \o M(2)>>, <<N[3].n, v \o M(1) \o M(3)>>}
+            [] cfg.shape = "fank" -> {<<N[i].n, v \o M(i)>> : i \in 1..Len(N)}      \* k parallel nodes with output keys joined at END
+            [] cfg.shape = "fmap" -> Str(v \o M(1) \o M(2))                        \* producer {x: v, y: marker} field-mapped into the consumer
             [] cfg.shape = "branch" -> Str(v \o M(1) \o Mark(NodeByName(cfg, cfg.pick)))
             [] cfg.shape = "keys" -> {<<"out", v \o Cat([i \in 1..Len(N) |-> M(i)])>>}
 
@@ -52,7 +57,8 @@ Judge(cfg, res) ==
   LET kinds == {res[p].kind : p \in Paradigms}
       vals == {ConcatObs(res[p].chunks) : p \in Paradigms}
       ref == Ref(cfg)
-  IN IF "panic" \in kinds THEN {"panic"}
+  IN IF "skip" \in kinds THEN {}            \* not run: the harness stops replaying after a few hung calls (each costs a watchdog period)
+     ELSE IF "panic" \in kinds THEN {"panic"}
      ELSE IF "hang" \in kinds THEN {"hang"}
      ELSE IF kinds = {"err"} THEN (IF ref = FAILED THEN {} ELSE {"unexpected-failure"})
      ELSE IF "err" \in kinds THEN {"failure-not-in-every-paradigm"}
